@@ -315,6 +315,8 @@ func main() {
 		"Pool64.lean":   func() (string, []string) { return genPools(repo, true) },
 		"Lst256.lean":   func() (string, []string) { return genDispatch(repo, false) },
 		"Lst64.lean":    func() (string, []string) { return genDispatch(repo, true) },
+		"Node256.lean":  func() (string, []string) { return genNode(repo, false) },
+		"Node64.lean":   func() (string, []string) { return genNode(repo, true) },
 		"Gen256.lean":   func() (string, []string) { return genGeneric(repo, false) },
 		"Gen64.lean":    func() (string, []string) { return genGeneric(repo, true) },
 	}
